@@ -144,100 +144,93 @@ func (c *Ctx) ruleRecoverWrapper(rule string) {
 		if ws.Type.Results != nil && len(ws.Type.Results.List) == 1 && len(ws.Type.Results.List[0].Names) == 1 {
 			named = info.ObjectOf(ws.Type.Results.List[0].Names[0])
 		}
-		recovers := false
-		ast.Inspect(ws.Body, func(x ast.Node) bool {
-			d, ok := x.(*ast.DeferStmt)
-			if !ok {
-				return true
-			}
-			lit, ok := ast.Unparen(d.Call.Fun).(*ast.FuncLit)
-			if !ok {
-				return true
-			}
-			// r := recover(); if r != nil { named = ... }
-			var rv types.Object
-			ast.Inspect(lit.Body, func(y ast.Node) bool {
-				switch s := y.(type) {
-				case *ast.AssignStmt:
-					if len(s.Rhs) == 1 {
-						if call, ok := ast.Unparen(s.Rhs[0]).(*ast.CallExpr); ok && resolveCallee(info, call).Builtin == "recover" {
-							if id, ok := s.Lhs[0].(*ast.Ident); ok {
-								rv = info.ObjectOf(id)
-							}
-						}
-					}
-				case *ast.IfStmt:
-					if init, ok := s.Init.(*ast.AssignStmt); ok && len(init.Rhs) == 1 {
-						if call, ok := ast.Unparen(init.Rhs[0]).(*ast.CallExpr); ok && resolveCallee(info, call).Builtin == "recover" {
-							if id, ok := init.Lhs[0].(*ast.Ident); ok {
-								rv = info.ObjectOf(id)
-							}
-						}
-					}
-					be, op := binOp(s.Cond)
-					if be == nil || op != token.NEQ || rv == nil {
-						return true
-					}
-					if !(rootIdent(info, be.X) == rv && isNilExpr(info, be.Y)) && !(rootIdent(info, be.Y) == rv && isNilExpr(info, be.X)) {
-						return true
-					}
-					ast.Inspect(s.Body, func(z ast.Node) bool {
-						if as, ok := z.(*ast.AssignStmt); ok {
-							for i, l := range as.Lhs {
-								if id, ok := l.(*ast.Ident); ok && named != nil && info.ObjectOf(id) == named && i < len(as.Rhs) && !isNilExpr(info, as.Rhs[i]) {
-									recovers = true
-								}
-							}
-						}
-						return true
-					})
-				}
-				return true
-			})
-			return true
-		})
-		_ = recovers
 		c.Rep.check(named != nil, rule, ws.Short(), "WithSafe has no named error result", c.P.pos(ws.Body), "named error result",
 			"WithSafe must have a named error result (a deferred function can only change a named result)")
 		recoveredPaths := 0
-		// ... on EVERY path of the recovered branch (a type switch without default, an early return, would
-		// turn some panics into a nil error: the job is then counted as successful)
-		for _, lit := range c.P.Funcs {
-			if lit.Parent != ws || lit.Lit == nil || named == nil {
-				continue
+		// the deferred functions of WithSafe: a literal (assigns the named result) or a named function that is handed the
+		// result's address (assigns through that parameter). recover() only stops the panic when the deferred function
+		// itself calls it. The error result is assigned on EVERY path of the recovered branch (a type switch without
+		// default, an early return, would turn some panics into a nil error: the job is then counted as successful)
+		type deferred struct {
+			f      *Func
+			target func(info *types.Info, lhs ast.Expr) bool
+		}
+		var ds []deferred
+		ast.Inspect(ws.Body, func(x ast.Node) bool {
+			if _, ok := x.(*ast.FuncLit); ok {
+				return false
 			}
-			linfo := lit.Info()
+			d, ok := x.(*ast.DeferStmt)
+			if !ok || named == nil {
+				return true
+			}
+			if lit, ok := ast.Unparen(d.Call.Fun).(*ast.FuncLit); ok {
+				if lf := c.P.byLit[lit]; lf != nil {
+					ds = append(ds, deferred{lf, func(li *types.Info, lhs ast.Expr) bool {
+						id, ok := ast.Unparen(lhs).(*ast.Ident)
+						return ok && li.ObjectOf(id) == named
+					}})
+				}
+				return false
+			}
+			g := c.P.byObj[resolveCallee(info, d.Call).Key]
+			if g == nil || g.Body == nil || g.Type.Params == nil {
+				return true
+			}
+			var params []types.Object
+			for _, fld := range g.Type.Params.List {
+				for _, nm := range fld.Names {
+					params = append(params, g.Info().ObjectOf(nm))
+				}
+			}
+			for i, a := range d.Call.Args {
+				if u, ok := ast.Unparen(a).(*ast.UnaryExpr); ok && u.Op == token.AND && rootIdent(info, u.X) == named && i < len(params) {
+					p := params[i]
+					ds = append(ds, deferred{g, func(li *types.Info, lhs ast.Expr) bool {
+						st, ok := ast.Unparen(lhs).(*ast.StarExpr)
+						if !ok {
+							return false
+						}
+						id, ok := ast.Unparen(st.X).(*ast.Ident)
+						return ok && li.ObjectOf(id) == p
+					}})
+				}
+			}
+			return true
+		})
+		for _, d := range ds {
 			sr := &seqRule{c: c, rule: rule}
 			sr.classify = func(fr *Frame, call *ast.CallExpr, ce *Callee, args []Value) *callEvent {
 				if ce.Builtin == "recover" {
+					if fr.Caller != nil {
+						// called by a function the deferred function calls: returns nil, stops nothing
+						return &callEvent{Name: "recover-nested", Atomic: true}
+					}
 					return &callEvent{Name: "recover", Atomic: true, Results: tok("recovered")}
 				}
 				return nil
 			}
 			sr.condSym = func(fr *Frame, token, rel string) string { return token + "=" + rel }
 			sr.visit = func(fr *Frame, n ast.Node) string {
-				if as, ok := n.(*ast.AssignStmt); ok {
+				if as, ok := n.(*ast.AssignStmt); ok && fr.Caller == nil {
 					for i, l := range as.Lhs {
-						if id, ok := l.(*ast.Ident); ok && linfo.ObjectOf(id) == named && i < len(as.Rhs) && !isNilExpr(linfo, as.Rhs[i]) {
+						if d.target(fr.Fn.Info(), l) && i < len(as.Rhs) && !isNilExpr(fr.Fn.Info(), as.Rhs[i]) {
 							return "set-result"
 						}
 					}
 				}
 				return ""
 			}
-			n := 0
-			for _, sg := range sr.segments(lit) {
+			for _, sg := range sr.segments(d.f) {
 				if sg.Kind != "path" || !sg.has("recover") {
 					continue
 				}
 				if sg.has("recovered=nonnil") {
-					n++
 					recoveredPaths++
 					c.Rep.check(sg.has("set-result"), rule, ws.Short(), "a recovered panic leaves the error result nil on some path", sg.End, "recovered panic ⇒ error result assigned on this path",
 						"a path of WithSafe's deferred function recovers a panic (non-nil value) and does not assign the error result: that panic is reported as success ["+strings.Join(sg.Syms, " ")+"]")
 				}
 			}
-			_ = n
 		}
 		c.Rep.check(recoveredPaths > 0, rule, ws.Short(), "WithSafe does not recover", c.P.pos(ws.Body), "a deferred function literal calls recover() and tests the value",
 			"WithSafe has no deferred function literal that calls recover() and distinguishes a recovered panic: a panic in the user function propagates (or is swallowed as success)")
@@ -415,8 +408,18 @@ func (c *Ctx) ruleOwnResponse(rule string) {
 				if key == nil || key.Name != "Response" || !isNamed(info.TypeOf(kvx.Value), modPath+"/internal/helpers.Response") {
 					continue
 				}
-				call, isCall := ast.Unparen(kvx.Value).(*ast.CallExpr)
-				fresh := isCall && resolveCallee(info, call).Key == kNewResp
+				isNew := func(e ast.Expr) bool {
+					call, isCall := ast.Unparen(e).(*ast.CallExpr)
+					return isCall && resolveCallee(info, call).Key == kNewResp
+				}
+				fresh := isNew(kvx.Value)
+				if id, ok := ast.Unparen(kvx.Value).(*ast.Ident); ok && !fresh {
+					// a local of this function that only ever holds a response created here
+					if v, ok := info.ObjectOf(id).(*types.Var); ok && !isParamOf(f, v) && v.Pos() > f.Body.Pos() && v.Pos() < f.Body.End() {
+						all, n := assignedOnlyFrom(f, v, func(r ast.Expr, idx, cnt int) bool { return isNew(r) })
+						fresh = all && n > 0
+					}
+				}
 				if arms {
 					c.Rep.check(fresh, rule, f.Short(), "single job without a fresh response", c.P.pos(kvx), "Response: NewResponse(...) per job", "a single job must get its own fresh response (a shared one delivers another job's outcome)")
 				} else if !fresh {
